@@ -111,11 +111,12 @@ fn compile(files: &[(String, String)]) -> Outcome {
                 if code.trim().is_empty() {
                     return Outcome::Bad("no diagnostics, and emit_code() returned an empty module".into());
                 }
-                // every named runtype of the emitted module is defined exactly once
+                if let Ok(p) = std::env::var("FRONT_EMIT") { let _ = std::fs::write(p, &code); }
+                // every named runtype of the emitted module is defined exactly once, and every reference is to one of them
+                let mut keys: Vec<String> = vec![];
                 if let Some(start) = code.find("const namedRuntypes = {") {
                     let rest = &code[start..];
                     if let Some(end) = rest.find("};") {
-                        let mut keys: Vec<String> = vec![];
                         for l in rest[..end].lines().skip(1) {
                             let l = l.trim();
                             if let Some(l2) = l.strip_prefix('"') {
@@ -129,6 +130,32 @@ fn compile(files: &[(String, String)]) -> Outcome {
                             }
                         }
                     }
+                }
+                // a parser is built for every name requested in buildParsers<{ ... }>
+                if let Some((_, entry)) = files.iter().find(|(n, _)| n == "entry.ts") {
+                    if let (Some(a), Some(bi)) = (entry.find("buildParsers<{"), code.find("const buildParsersInput = {")) {
+                        let req = &entry[a + "buildParsers<{".len()..];
+                        if let Some(e) = req.find("}>") {
+                            let table = &code[bi..];
+                            let table = &table[..table.find("};").unwrap_or(table.len())];
+                            for part in req[..e].split(',') {
+                                let name = part.split(':').next().unwrap_or("").trim();
+                                if !name.is_empty() && !table.contains(&format!("\"{}\":", name)) {
+                                    return Outcome::Bad(format!("no parser is built for the requested name {:?}", name));
+                                }
+                            }
+                        }
+                    }
+                }
+                let mut rest: &str = &code;
+                while let Some(i) = rest.find("new RefRuntype(undefined, \"") {
+                    let tail = &rest[i + "new RefRuntype(undefined, \"".len()..];
+                    let Some(q) = tail.find('"') else { break };
+                    let name = &tail[..q];
+                    if !keys.iter().any(|k| k == name) {
+                        return Outcome::Bad(format!("the emitted module refers to the named runtype {:?}, which it does not define", name));
+                    }
+                    rest = &tail[q..];
                 }
                 Outcome::Code
             }
@@ -242,6 +269,9 @@ fn programs(depth: usize) -> Vec<(String, Vec<(String, String)>)> {
         ("two Exclude results over recursive types nested at different depths", vec![("entry.ts", "type L1 = { v: string, children: L1[] };\ntype L2 = { v: number, children: L2[] };\ntype W1 = { inner: { deep: L1 } } | number;\ntype W2 = { inner: L2 } | number;\ntype X1 = Exclude<W1, number>;\ntype X2 = Exclude<W2, number>;\nparse.buildParsers<{ X1: X1, X2: X2 }>();\n")]),
         ("three semantic computations over recursive types: Exclude, keyof, indexed access", vec![("entry.ts", "type T = { a: string, next: T | null };\ntype U = { prev: U | null, w: number };\ntype X = Exclude<T | string, string>;\ntype Y = Exclude<U | string, string>;\ntype K = keyof T;\ntype I = U[\"prev\"];\nparse.buildParsers<{ X: X, Y: Y, K: K, I: I }>();\n")]),
         ("the same recursive Exclude requested twice under two names", vec![("entry.ts", "type T = { v: string, next: T | null };\ntype A = Exclude<T | string, string>;\ntype B = Exclude<T | string, string>;\nparse.buildParsers<{ A: A, B: B }>();\n")]),
+        ("two default exports in one file (types)", vec![("entry.ts", "type A = string;\ntype B = number;\nexport default A;\nexport { B as default };\nparse.buildParsers<{ A: A }>();\n")]),
+        ("two default exports in an imported file (values)", vec![("t.ts", "const a = 1;\nconst b = 2;\nexport default a;\nexport { b as default };\n"), ("entry.ts", "import d from \"./t\";\nparse.buildParsers<{ D: typeof d }>();\n")]),
+        ("recursive results of Exclude at top level: object, tuple, through a union", vec![("entry.ts", "type Tree = { kids: Tree[], tag: string };\ntype RT = [number, ...RT[]];\ntype X = Exclude<Tree | string, string>;\ntype Y = Exclude<RT, string>;\ntype Z = Exclude<RT | Tree | null, null>;\nparse.buildParsers<{ X: X, Y: Y, Z: Z }>();\n")]),
         ("four files export a type of the same name at different depths", vec![("a/t.ts", "export type T = { a: string };\n"), ("b/a/t.ts", "export type T = { b: string };\n"), ("c/b/a/t.ts", "export type T = { c: string };\n"), ("t.ts", "export type T = { d: string };\n"),
             ("entry.ts", "import { T as T1 } from \"./a/t\";\nimport { T as T2 } from \"./b/a/t\";\nimport { T as T3 } from \"./c/b/a/t\";\nimport { T as T4 } from \"./t\";\nparse.buildParsers<{ T1: T1, T2: T2, T3: T3, T4: T4 }>();\n")]),
     ];
